@@ -58,19 +58,30 @@ def check(ctx: Ctx, col: Collector, tier: str) -> None:
     for icn in (True, False):
         outs = ctx.interp(cfi).run_function(cfi, {"name": Sym("name"), "naming_convention": EnumM(NC, "SAFE_DS"), "is_class_name": Const(icn)})
         rets = [o for o in outs if o.kind == "return"]
-        # (1) the only name that leaves the conversion untouched is "_" (it has no letter to capitalise)
-        verbatim = [o for o in rets if o.value == Sym("name") or (isinstance(o.value, Const) and not any(v and k in ("'_'==<name>", "<name>=='_'") for k, v in o.facts))]
+        # (1) the only names that leave the conversion untouched consist of underscores only (no letter to capitalise): the path
+        #     established name == "_" or that stripping the underscores leaves nothing
+        def only_underscores(o) -> bool:
+            return any((v and k in ("'_'==<name>", "<name>=='_'")) or (not v and k == "truthy:.strip(<name>, '_')") or (v and k in ("''==.strip(<name>, '_')", ".strip(<name>, '_')==''"))
+                       for k, v in o.facts)
+        verbatim = [o for o in rets if (o.value == Sym("name") or isinstance(o.value, Const)) and not only_underscores(o)]
         key = f"{GHELPER}::{CONV}::SAFE_DS,is_class_name={icn}::identity-exits"
-        if verbatim or len(rets) != len(outs):
+        # every name without a letter must take the identity exit ("__" would otherwise be converted to the empty identifier)
+        covers_all = any((o.value == Sym("name") or isinstance(o.value, Const)) and any((not v and k == "truthy:.strip(<name>, '_')") or (v and k in ("''==.strip(<name>, '_')", ".strip(<name>, '_')==''"))
+                                                                                    for k, v in o.facts) for o in rets)
+        if not covers_all and not verbatim and len(rets) == len(outs):
+            col.bad("C09.CONVERT-SHAPE", key, repo.loc(GHELPER, cfi.node), "no identity exit for names that consist of underscores only",
+                    f"{CONV}(is_class_name={icn}) converts a name that consists of underscores only (`__`, `___`) like any other name: nothing is left after the underscores are removed, "
+                    f"so the declaration is emitted with an empty identifier and the stub does not parse")
+        elif verbatim or len(rets) != len(outs):
             col.bad("C09.CONVERT-SHAPE", key, repo.loc(GHELPER, cfi.node), f"{[(repr(o.value)[:40], fmt_facts(o.facts)[:80]) for o in verbatim][:3]}",
                     f"with naming conversion on, {CONV}(is_class_name={icn}) returns its argument unchanged on a path that has not established name == '_' "
                     f"({fmt_facts(verbatim[0].facts)[:100] if verbatim else 'raise'}): such names keep their Python spelling (e.g. a one-letter class stays lower case)")
         else:
-            col.ok("C09.CONVERT-SHAPE", key, repo.loc(GHELPER, cfi.node), f"{len(rets)} paths; the only verbatim return is under name == '_'")
+            col.ok("C09.CONVERT-SHAPE", key, repo.loc(GHELPER, cfi.node), f"{len(rets)} paths; the only verbatim return is for names that consist of underscores only")
         # (2) every '_'-separated part is capitalised, except the first part of a non-class name
         shape_bad = []
         for o in rets:
-            if isinstance(o.value, Const):
+            if isinstance(o.value, Const) or (o.value == Sym("name") and only_underscores(o)):
                 continue
             hs = holes(o.value)
             raw = [h for h in hs if not any(isinstance(x, App) and x.func == ".upper" for x in walk_av(h))]
